@@ -657,6 +657,13 @@ class _Literals(ast.NodeTransformer):
             return ast.copy_location(ast.List(node.left.elts + node.right.elts, ast.Load()), node)
         return node
 
+    def visit_AnnAssign(self, node):
+        self.generic_visit(node)
+        if node.value is not None and isinstance(node.target, ast.Name) and node.simple:
+            # `x: T = v` binds x exactly as `x = v` does
+            return ast.copy_location(ast.Assign([node.target], node.value), node)
+        return node
+
     def _fix(self, body):
         out = []
         # `t = list(E)` / `t = [..]` directly followed by `t.sort(...)`  ->  `t = sorted(E, ...)`
